@@ -67,6 +67,9 @@ type ChanObj struct {
 	id     int
 	// ready is set by harness stubs (e.g. ctx.Done()) to mean "never ready"
 	never bool
+	// timer is set for the channel of a time.Timer / time.After: it delivers once, when the
+	// timer is armed and the receiver has nothing else to proceed with
+	timer *ghostState
 }
 
 type Cell struct {
